@@ -32,6 +32,7 @@ EXPLANATION = (
   ' (COVER-content) the test that decides which elements extend the cached content interval covers every leaf kind that snapshot generation treats as text (line breaks, text nodes), directly or through every kind that may contain it;'
   ' (LOOP-break) no loop over the items of a collection is left by a branch that does nothing but `break` on a test about the item (end-of-input sentinels, flags set in the loop body and searches whose variable is read afterwards excepted): an item that is to be skipped does not end the processing of the items after it;'
   " (ABSENT-style) the region-background predicate, interpreted on a region that specifies no style, does not conclude that the region paints nothing (the document's initial values are applied only in the snapshot);"
+  + common.SHARED_CLAUSES['truthy']
 )
 RULE_TEXT = "per mutator call / mutating call argument, per copy_to variant x field, per early return, per module-level store"
 UNDECIDED = ["equality of cached and uncached results over all documents and times", "equality of repeated calls as values",
@@ -184,6 +185,7 @@ def check_no_shared_state(ctx, fs):
 
 
 def run(ctx):
+  common.check_shared_helpers(ctx, truthy_modules=["ttconv.model", "ttconv.isd"])
   ix = ctx.ix
   prov, ps, fs = build_provenance(ctx)
   n = pur.check_purity(ctx, prov, fs, ps)
